@@ -70,7 +70,8 @@ func NewCreateContentFromAuthEvents(authEvents AuthEventProvider, userIDForSende
 		err = errorf("missing create event")
 		return
 	}
-	if err = json.Unmarshal(createEvent.Content(), &c); err != nil {
+	// The members named exactly "m.federate", "room_version", "additional_creators", ...: see exactMembersOnly.
+	if err = json.Unmarshal(exactMembersOnly(createEvent.Content(), &c), &c); err != nil {
 		err = errorf("unparseable create event content: %s", err.Error())
 		return
 	}
@@ -260,7 +261,8 @@ func NewThirdPartyInviteContentFromAuthEvents(authEvents AuthEventProvider, toke
 		err = errorf("Couldn't find third party invite event")
 		return
 	}
-	if err = json.Unmarshal(thirdPartyInviteEvent.Content(), &t); err != nil {
+	// member names are exact: see exactMembersOnly
+	if err = json.Unmarshal(exactMembersOnly(thirdPartyInviteEvent.Content(), &t), &t); err != nil {
 		err = errorf("unparseable third party invite event content: %s", err.Error())
 	}
 	return
@@ -355,7 +357,9 @@ func NewJoinRuleContentFromAuthEvents(authEvents AuthEventProvider) (c JoinRuleC
 	if joinRulesEvent == nil {
 		return
 	}
-	if err = json.Unmarshal(joinRulesEvent.Content(), &c); err != nil {
+	// The member named exactly "join_rule" (a content without one leaves the default above in place), not
+	// "Join_rule" or "JOIN_RULE": see exactMembersOnly.
+	if err = json.Unmarshal(exactMembersOnly(joinRulesEvent.Content(), &c), &c); err != nil {
 		err = errorf("unparseable join_rules event content: %s", err.Error())
 		return
 	}
@@ -482,6 +486,8 @@ func NewPowerLevelContentFromEvent(event PDU) (c PowerLevelContent, err error) {
 // parseIntegerPowerLevels unmarshals directly to PowerLevelContent, since that will kick up an
 // error if one of the power levels isn't an int64.
 func parseIntegerPowerLevels(contentBytes []byte, c *PowerLevelContent) error {
+	// member names are exact ("users", "state_default", ...): see exactMembersOnly
+	contentBytes = exactMembersOnly(contentBytes, c)
 	// ... except for null, which encoding/json skips without an error, whether it stands
 	// for a level or for a whole map of levels: null is neither an integer nor an object.
 	var nulls struct {
@@ -527,6 +533,8 @@ func (*notNullLevels) UnmarshalJSON(data []byte) error {
 }
 
 func parsePowerLevels(contentBytes []byte, c *PowerLevelContent) error {
+	// member names are exact ("users", "state_default", ...): see exactMembersOnly
+	contentBytes = exactMembersOnly(contentBytes, c)
 	// We can't extract the JSON directly to the powerLevelContent because we
 	// need to convert string values to int values.
 	var content struct {
@@ -644,7 +652,7 @@ func checkCreateEventV1(event PDU, sender spec.UserID, knownRoomVersion KnownRoo
 		Creator     *string      `json:"creator"`
 		RoomVersion *RoomVersion `json:"room_version"`
 	}{}
-	if err := json.Unmarshal(event.Content(), &c); err != nil {
+	if err := json.Unmarshal(exactMembersOnly(event.Content(), &c), &c); err != nil {
 		return errorf("create event has invalid content: %s", err.Error())
 	}
 	if c.Creator == nil {
@@ -667,7 +675,7 @@ func checkCreateEventV2(event PDU, sender spec.UserID, knownRoomVersion KnownRoo
 	c := struct {
 		RoomVersion *RoomVersion `json:"room_version"`
 	}{}
-	if err := json.Unmarshal(event.Content(), &c); err != nil {
+	if err := json.Unmarshal(exactMembersOnly(event.Content(), &c), &c); err != nil {
 		return errorf("create event has invalid content: %s", err.Error())
 	}
 	if c.RoomVersion != nil {
@@ -683,7 +691,7 @@ func checkCreateEventV3(event PDU, sender spec.UserID, knownRoomVersion KnownRoo
 		RoomVersion        *RoomVersion `json:"room_version"`
 		AdditionalCreators []string     `json:"additional_creators"`
 	}{}
-	if err := json.Unmarshal(event.Content(), &c); err != nil {
+	if err := json.Unmarshal(exactMembersOnly(event.Content(), &c), &c); err != nil {
 		return errorf("create event has invalid content: %s", err.Error())
 	}
 	if c.RoomVersion != nil {
@@ -717,7 +725,7 @@ func checkCreateEventV3(event PDU, sender spec.UserID, knownRoomVersion KnownRoo
 func CreatorsFromCreateEvent(createEvent PDU) (creators []string) {
 	creators = append(creators, string(createEvent.SenderID()))
 	var content CreateContent
-	err := json.Unmarshal(createEvent.Content(), &content)
+	err := json.Unmarshal(exactMembersOnly(createEvent.Content(), &content), &content)
 	if err != nil {
 		// should not be possible as we already have made the PDU
 		panic("invalid create event content: " + string(createEvent.JSON()))
